@@ -202,7 +202,7 @@ impl Check for C02 {
     }
     fn assumptions(&self) -> Vec<String> {
         vec![
-            "init expressions read earlier states and step-0 inputs only; every state has a next function (the witness format and the encoding give no meaning to the other cases)".into(),
+            "init expressions read earlier states and step-0 inputs only; a state without a next function is unconstrained from step 1 on (btor2 reading, as in the encoding and in the reader's demotion of init-less next-less states to inputs); such states occur in a third of the generated systems and in a directed case".into(),
             "satisfiability inside the reference solver is decided by z3 4.8.12; the verdict oracle is the independent explicit-state search".into(),
             "check_constraints=true only where the reference search finds the constraints satisfiable (bmc aborts by design otherwise)".into(),
         ]
